@@ -160,6 +160,7 @@ func roundtripMain(args []string) int {
 			nbeh++
 		}
 	}
+	RunProbe(lg, &stt)
 	for wn := 0; wn < *nwl; wn++ {
 		wseed := *seed + int64(1000*wn)
 		run := fmt.Sprintf("wl:%d", wseed)
